@@ -421,7 +421,24 @@ def main():
     if cfg.get('engine'):
         import importlib
         mod = importlib.import_module(cfg['engine'])
-        return mod.main(pid, tier, seed, replay)
+        rc = mod.main(pid, tier, seed, replay)
+        # scripted scenarios of harness/src/bin/directed.rs registered for this property (run in addition to the engine)
+        if cfg.get('directed') and not replay:
+            problems, _ = build_tools()
+            for prof in ('debug', 'release'):
+                for name in cfg['directed']:
+                    try:
+                        r = subprocess.run([os.path.join(TARGET, prof, 'directed'), name], capture_output=True, text=True, timeout=600)
+                        ok = (r.returncode == 0) and (('DIRECTED %s ok' % name) in r.stdout)
+                        what = (r.stdout.strip() or ('exit code %s %s' % (r.returncode, r.stderr[-300:])))
+                    except Exception as ex:
+                        ok, what = False, repr(ex)
+                    if not ok:
+                        path = write_replay(pid, 'directed-%s-%s' % (name, prof), ['property=%s' % pid, 'scripted scenario %s of harness/src/bin/directed.rs fails on the real crate (%s build):' % (name, prof), what[:1500],
+                                                                                     'replay: cargo run --offline --manifest-path harness/Cargo.toml --bin directed -- %s' % name], [])
+                        print('VIOLATION property=%s replay=%s' % (pid, path)); print('  scripted scenario %s fails (%s build): %s' % (name, prof, what[:300]))
+                        rc = 1
+        return rc
     t0 = time.time()
     os.makedirs(CACHE, exist_ok=True)
 
